@@ -1,6 +1,6 @@
 """C04 — the token stream is a faithful, layout-independent reading of the text."""
 import hashlib, json, os, random, re, shutil
-import common, gen04, lexcoq, lexgen, sqlgen
+import c04stmts, common, gen04, lexcoq, lexgen, sqlgen
 from common import Report, log
 
 MANIFEST = dict(
@@ -194,6 +194,142 @@ def oracle(text_bytes, out, tb):
     return fails
 
 
+# ---- tree dumps (harness/dump.go: canonical s-expressions over exported fields) ---------------------------------
+
+_RE_NAME = re.compile(r'[A-Za-z0-9_]*')
+_RE_FIELD = re.compile(r'([A-Za-z0-9_]+)=')
+_RE_STR = re.compile(r'"(?:[^"\\]|\\.)*"')
+_RE_ATOM = re.compile(r'[^ \)\]\}]+')
+
+
+def parse_dump(s):
+    """dump text -> ("node", type, [(field, value)]) | ("list", [values]) | ("str", go-quoted text) | ("atom", text)"""
+    pos = [0]
+
+    def val():
+        c = s[pos[0]]
+        if c == '(':
+            m = _RE_NAME.match(s, pos[0] + 1)
+            name, pos[0] = m.group(0), m.end()
+            fields = []
+            while True:
+                while s[pos[0]] == ' ':
+                    pos[0] += 1
+                if s[pos[0]] == ')':
+                    pos[0] += 1
+                    return ("node", name, fields)
+                m = _RE_FIELD.match(s, pos[0])
+                pos[0] = m.end()
+                fields.append((m.group(1), val()))
+        if c == '[':
+            pos[0] += 1
+            items = []
+            while True:
+                while s[pos[0]] == ' ':
+                    pos[0] += 1
+                if s[pos[0]] == ']':
+                    pos[0] += 1
+                    return ("list", items)
+                items.append(val())
+        if c == '{':   # maps: kept as one opaque atom (compared as text)
+            depth, i = 0, pos[0]
+            while True:
+                if s[i] == '"':
+                    i = _RE_STR.match(s, i).end()
+                    continue
+                depth += (s[i] == '{') - (s[i] == '}')
+                i += 1
+                if depth == 0:
+                    break
+            r, pos[0] = s[pos[0]:i], i
+            return ("atom", r)
+        if c == '"':
+            m = _RE_STR.match(s, pos[0])
+            pos[0] = m.end()
+            return ("str", m.group(0))
+        m = _RE_ATOM.match(s, pos[0])
+        pos[0] = m.end()
+        return ("atom", m.group(0))
+    return val()
+
+
+def tree_diffs(a, b, out, owner=None, field=None):
+    """differences of two parsed dumps: (node type, field, value in a, value in b, scalar fields of the owning node in a)"""
+    def scal(n):
+        return {k: v[1] for k, v in n[2] if v[0] in ("str", "atom")} if n is not None else {}
+    if a[0] != b[0] or (a[0] == "node" and a[1] != b[1]) or (a[0] == "list" and len(a[1]) != len(b[1])):
+        out.append((owner[1] if owner else "", field or "", "<%s>" % (a[1] if a[0] == "node" else a[0]), "<%s>" % (b[1] if b[0] == "node" else b[0]), scal(owner)))
+    elif a[0] == "node":
+        fa, fb = dict(a[2]), dict(b[2])
+        for k in list(fa) + [k for k in fb if k not in fa]:
+            if k not in fa or k not in fb:
+                out.append((a[1], k, "<set>" if k in fa else "<unset>", "<set>" if k in fb else "<unset>", scal(a)))
+            else:
+                tree_diffs(fa[k], fb[k], out, a, k)
+    elif a[0] == "list":
+        for x, y in zip(a[1], b[1]):
+            tree_diffs(x, y, out, owner, field)
+    elif a[1] != b[1]:
+        out.append((owner[1] if owner else "", field or "", a[1], b[1], scal(owner)))
+    return out
+
+
+# (node type, field): the string is a NAME the statement's author chose (a table, column, alias, function, type, index
+# method ...), not a keyword: its written spelling belongs to the tree.  A word of the tokenizer's keyword table that a
+# statement uses in one of these positions (FROM target, IF(a, b, c), x::interval, USING hash) is a name there and is not
+# re-cased by the layout oracle (see names_of).  Every other string field of the tree must be independent of the letter
+# case of the keywords.
+NAME_FIELDS = {
+    ("Identifier", "Name"), ("Identifier", "Table"), ("Ident", "Name"), ("ObjectName", "Name"), ("FunctionCall", "Name"),
+    ("TableReference", "Name"), ("TableReference", "Alias"), ("AliasedExpression", "Alias"), ("CommonTableExpr", "Name"),
+    ("CommonTableExpr", "Columns"), ("WindowSpec", "Name"), ("ForClause", "Tables"), ("CastExpression", "Type"),
+    ("ColumnDef", "Name"), ("ColumnDef", "Type"), ("SelectStatement", "TableName"), ("InsertStatement", "TableName"),
+    ("UpdateStatement", "TableName"), ("UpdateStatement", "Alias"), ("DeleteStatement", "TableName"), ("DeleteStatement", "Alias"),
+    ("ReplaceStatement", "TableName"), ("DescribeStatement", "TableName"), ("OnConflict", "Constraint"),
+    ("CreateTableStatement", "Name"), ("CreateTableStatement", "Inherits"), ("TableConstraint", "Name"), ("TableConstraint", "Columns"),
+    ("ReferenceDefinition", "Table"), ("ReferenceDefinition", "Columns"), ("PartitionBy", "Columns"), ("PartitionDefinition", "Name"),
+    ("PartitionDefinition", "Tablespace"), ("TableOption", "Value"), ("AlterTableStatement", "Table"), ("AlterTableAction", "ColumnName"),
+    ("AlterStatement", "Name"), ("CreateIndexStatement", "Name"), ("CreateIndexStatement", "Table"), ("CreateIndexStatement", "Using"),
+    ("IndexColumn", "Column"), ("IndexColumn", "Collate"), ("MergeStatement", "TargetAlias"), ("MergeStatement", "SourceAlias"),
+    ("MergeAction", "Columns"), ("SetClause", "Column"), ("CreateViewStatement", "Name"), ("CreateViewStatement", "Columns"),
+    ("CreateMaterializedViewStatement", "Name"), ("CreateMaterializedViewStatement", "Columns"),
+    ("CreateMaterializedViewStatement", "Tablespace"), ("RefreshMaterializedViewStatement", "Name"), ("DropStatement", "Names"),
+    ("TruncateStatement", "Tables"), ("ShowStatement", "ObjectName"), ("ShowStatement", "From"), ("RoleOption", "Name"),
+    ("AlterRoleOperation", "NewName"), ("AlterRoleOperation", "MemberName"), ("AlterRoleOperation", "ConfigName"),
+    ("AlterRoleOperation", "InDatabase"), ("AlterPolicyOperation", "NewName"), ("AlterPolicyOperation", "To"),
+    ("AlterConnectorOwner", "Name")}
+_RE_WORD = re.compile(r'[A-Za-z_][A-Za-z0-9_]*')
+
+
+def names_of(dumps):
+    """upper-cased words that occur inside the name fields of these trees"""
+    acc = set()
+
+    def walk(v, owner, field):
+        if v[0] == "node":
+            for k, x in v[2]:
+                walk(x, v[1], k)
+        elif v[0] == "list":
+            for x in v[1]:
+                walk(x, owner, field)
+        elif v[0] == "str" and (owner, field) in NAME_FIELDS:
+            for w in _RE_WORD.findall(v[1]):
+                acc.add(lexgen.go_upper(w))
+    for d in dumps or []:
+        try:
+            walk(parse_dump(d), None, None)
+        except (IndexError, AttributeError):
+            pass
+    return acc
+
+
+def is_bool_spelling(df):
+    """the one tree field known to keep a keyword's written spelling: Value of a LiteralValue of Type "bool" (TRUE / FALSE)"""
+    ty, field, va, vb, sib = df
+    return (ty == "LiteralValue" and field == "Value" and sib.get("Type") == '"bool"' and va.upper() == vb.upper()
+            and va.upper() in ('"TRUE"', '"FALSE"'))
+
+
 def layout_verdict(oa, ob, tb):
     """oa: result for a text the tokenizer accepts, ob: result for the same lexemes under another layout / keyword case.
     None = same reading and same parse; else (oracle name, explanation)"""
@@ -206,9 +342,18 @@ def layout_verdict(oa, ob, tb):
         return ("layout_independent", "one layout parses, the other is rejected (%s / %s)" % (oa.get("perr"), ob.get("perr")))
     if oa.get("trees") != ob.get("trees"):
         xa, xb = oa.get("dumps") or [], ob.get("dumps") or []
-        if xa and [x.upper() for x in xa] == [x.upper() for x in xb]:
-            return ("parse_keyword_spelling", "the trees differ only in the letter case of keyword spellings copied into tree fields")
-        return ("layout_independent", "the parse differs (trees %s / %s)" % (oa.get("trees"), ob.get("trees")))
+        diffs = []
+        if xa and len(xa) == len(xb):
+            try:
+                for da, d2 in zip(xa, xb):
+                    if da != d2:
+                        tree_diffs(parse_dump(da), parse_dump(d2), diffs)
+            except (IndexError, AttributeError):
+                diffs = []
+        if diffs and all(is_bool_spelling(d) for d in diffs):
+            return ("parse_bool_literal_spelling", "the trees differ only in the written letter case of TRUE / FALSE kept in LiteralValue.Value (Type bool)")
+        where = "; ".join("%s.%s: %s / %s" % d[:4] for d in diffs[:4])
+        return ("layout_independent", "the parse differs (%s; trees %s / %s)" % (where or "no field-level difference computed", oa.get("trees"), ob.get("trees")))
     return None
 
 
@@ -336,7 +481,7 @@ def witness_check(w, tb):
         elif ch == "same_as":
             o1, o2 = run_impl([enc(w["sql"]), enc(w["other"])], parse="dump")
             f = layout_verdict(o1, o2, tb)
-            if f and (f[0] != "parse_keyword_spelling" or w.get("strict_case")):
+            if f and (f[0] != "parse_bool_literal_spelling" or w.get("strict_case")):
                 fails.append("%r and %r differ only in layout / keyword case but are read or parsed differently: %s" % (w["sql"], w["other"], f[1]))
         elif ch == "ntokens_at_limit":
             pass
@@ -581,31 +726,43 @@ def run(tier):
     conv_stmts = ["INSERT INTO t (a) VALUES (1) RETURNING a", "UPDATE t SET a = 1 WHERE b = 2 RETURNING a, b", "DELETE FROM t WHERE a = 1 RETURNING *",
                   "SELECT a FROM t, LATERAL (SELECT 1) AS l", "SELECT a FROM t WHERE a = ANY (SELECT b FROM u)", "SELECT a FROM t WHERE a > ALL (SELECT b FROM u)"]
     lay_in += conv_stmts * (4 if quick else 12)
-    pairs_l = []
-    for s in lay_in:
+    # one statement per parser construct that stores / compares / skips a keyword, and keyword-table words used as names
+    lay_in += c04stmts.KEYWORD_STATEMENTS * (3 if quick else 10)
+    # words of the keyword table that a statement uses as NAMES (its tree has them in a name field: FROM target, IF(...),
+    # x::interval, USING hash) are names there, not keywords: they keep their spelling; every other keyword is re-cased
+    try:
+        lo_a = run_impl([enc(x) for x in lay_in], parse="dump")
+    except common.StageError as e:
+        return common.stage_fail(rp, e)
+    pairs_l, lo_orig, kept_names = [], [], {}
+    for s, o1 in zip(lay_in, lo_a):
+        used = names_of(o1.get("dumps")) & (set(tb.kw) | set(tb.conv_kw))
+        for w in used:
+            kept_names[w] = kept_names.get(w, 0) + 1
         try:
-            r = lexgen.relayout(rng, s, tb, conv=(s in conv_stmts))
+            r = lexgen.relayout(rng, s, tb, conv=(s in conv_stmts), skip=used)
         except Exception:
             r = None
         if r is not None and r != s:
-            pairs_l.append((s, r))
+            pairs_l.append((s, r)); lo_orig.append(o1)
     try:
-        lo = run_impl([enc(x) for p2 in pairs_l for x in p2], parse="dump")
+        lo_b = run_impl([enc(p2[1]) for p2 in pairs_l], parse="dump")
     except common.StageError as e:
         return common.stage_fail(rp, e)
+    rp.cov["keyword_table_words_used_as_names_not_recased"] = kept_names
     nlay, ncase = 0, 0
     for j, (a, b2) in enumerate(pairs_l):
-        oa, ob = lo[2 * j], lo[2 * j + 1]
+        oa, ob = lo_orig[j], lo_b[j]
         da, db = decode_canon(oa.get("c") or []), decode_canon(ob.get("c") or [])
         if da["kind"] != "ok":
             continue
         nlay += 1
         f = layout_verdict(oa, ob, tb)
-        if f and f[0] == "parse_keyword_spelling":
+        if f and f[0] == "parse_bool_literal_spelling":
             ncase += 1
         if f:
             classify("layout", enc(b2), f, {"original": a, "relayout": b2})
-    rp.cov["layout_pairs_tree_differs_in_keyword_spelling_only"] = ncase
+    rp.cov["layout_pairs_tree_differs_in_boolean_literal_spelling_only"] = ncase
     rp.cov["layout_pairs"] = nlay
 
     rp.cov["distinct_nontrivial"] = len({b for b, o in zip(inputs, outs) if decode_canon(o.get("c") or []).get("kind") == "ok" and len(decode_canon(o["c"])["toks"]) > 2})
